@@ -219,6 +219,56 @@ class SListRef(SList):
         self.a = fresh(self.name + '_a', z3.ArraySort(I, self.esort))
 
 
+class SHistory:
+    """node_history = defaultdict(lambda: ([tmin], ['S'])): node -> (list of change times, list of statuses).
+    Two dicts of lists sharing one domain; normal form: for an absent key both lists are the default ([tmin], ['S'])."""
+    kind = 'history'
+
+    def __init__(self, tmin, name='hist', times=None, stats=None):
+        U = so.U()
+        self.tmin, self.name = tmin, name
+        self.times = times if times is not None else SDictOfLists(U, R, default_empty=False, name=name + '_t')
+        self.stats = stats if stats is not None else SDictOfLists(U, so.Status(), default_empty=False, name=name + '_s')
+        self.times.default = True
+        self.stats.default = True
+
+    def snap(self):
+        return SHistory(self.tmin, self.name, self.times.snap(), self.stats.snap())
+
+    def havoc(self):
+        self.times.havoc()
+        self.stats.havoc()
+
+    def wellformed(self):
+        U = so.U()
+        S = so.S['status_const']['S']
+        return And(so.forall(U, lambda k: And(self.times.lens[k] >= 0, self.stats.lens[k] == self.times.lens[k],
+                                              self.stats.dom[k] == self.times.dom[k])),
+                   so.forall(U, lambda k: Implies(Not(self.times.dom[k]), And(
+                       self.times.lens[k] == 1, self.times.vals[k][0] == self.tmin, self.stats.vals[k][0] == S))))
+
+    @staticmethod
+    def empty(tmin, name='hist'):
+        U = so.U()
+        S = so.S['status_const']['S']
+        t = SDictOfLists(U, R, dom=z3.K(U, BoolVal(False)), lens=z3.K(U, IntVal(1)),
+                         vals=z3.K(U, z3.Store(z3.K(I, RealVal(0)), 0, tmin)), default_empty=False, name=name + '_t')
+        st = SDictOfLists(U, so.Status(), dom=z3.K(U, BoolVal(False)), lens=z3.K(U, IntVal(1)),
+                          vals=z3.K(U, z3.K(I, S)), default_empty=False, name=name + '_s')
+        return SHistory(tmin, name, t, st)
+
+    def at(self, k):
+        # reading a defaultdict inserts the key (the content is already the default by the normal form)
+        self.times.dom = z3.Store(self.times.dom, k, BoolVal(True))
+        self.stats.dom = z3.Store(self.stats.dom, k, BoolVal(True))
+        return (self.times.at(k), self.stats.at(k))
+
+    def reset(self, k):
+        for d in (self.times, self.stats):
+            d.dom = z3.Store(d.dom, k, BoolVal(True))
+            d.lens = z3.Store(d.lens, k, IntVal(0))
+
+
 class SSet:
     kind = 'set'
 
